@@ -549,6 +549,18 @@ static std::string run_program(const std::string &line)
                         written.push_back(i);
                     } else
                         note = "SKIP";
+                } else if (c == "km") {
+                    // v[i] = <member k of *v[j]>, assigned from the const reference the getter returns (the source handle lives
+                    // INSIDE *v[j]; with i == j and v[j] the only owner the assignment releases the object that holds its source)
+                    int i = std::stoi(t.at(1)), j = std::stoi(t.at(2));
+                    size_t k = (size_t)std::stoul(t.at(3));
+                    if (slot_ok(i) && slot_ok(j) && !m.v[j].is_null() && is_a<FunctionSymbol>(*m.v[j])
+                        && k < down_cast<const FunctionSymbol &>(*m.v[j]).get_vec().size()) {
+                        m.v[i] = down_cast<const FunctionSymbol &>(*m.v[j]).get_vec()[k];
+                        written.push_back(i);
+                        dest = i;
+                    } else
+                        note = "SKIP";
                 } else if (c == "tp") {
                     int j = std::stoi(t.at(1));
                     if (slot_ok(j)) {
